@@ -560,6 +560,20 @@ M("c12-broadcast-try-outside-loop", "C12", "R09.8", MGR, "        for peer in se
 # ----------------------------------------------------------------------------------------------- rules added after the third seed round
 M("c10-no-write-readiness", "C10", "R10.8", RP, "            self.local_peer.selector.modify(self.sock, selectors.EVENT_READ | selectors.EVENT_WRITE, data=self)", "            self.local_peer.selector.modify(self.sock, selectors.EVENT_READ, data=self)")
 M("c10-msg-id-from-zero", "C10", "R10.8", RP, "        self._next_msg_id += 1\n        return self._next_msg_id", "        msg_id = self._next_msg_id\n        self._next_msg_id += 1\n        return msg_id")
+M("c02-generator-consumed-by-log", "C02", "RX.3", CONS, "    total_output_value = sum(output.value for output in transaction.outputs)\n",
+  "    output_values = (output.value for output in transaction.outputs)\n    if len(transaction.inputs) > 100:\n        print(list(output_values))\n    total_output_value = sum(output_values)\n")
+M("c10-max-of-known-heights", "C10", "RX.4", RP, "        coinstate = self.local_peer.chain_manager.coinstate\n        self.local_peer.logger.debug(\"%15s ... at coinstate %s\" % (self.host, coinstate))\n",
+  "        coinstate = self.local_peer.chain_manager.coinstate\n        self.local_peer.logger.debug(\"%15s ... at coinstate %s\" % (self.host, coinstate))\n        known = [coinstate.block_by_hash[h].height for h in message.potential_start_hashes if h in coinstate.block_by_hash]\n        self.local_peer.logger.debug(\"best common height %d\" % max(known))\n")
+M("c16-subsidy-era-window", "C16", "R16.4", CONS, "def get_block_subsidy(height: int) -> int:\n    halvings = height // SUBSIDY_HALVING_INTERVAL\n",
+  "_last_halvings = 0\n\n\ndef get_block_subsidy(height: int) -> int:\n    global _last_halvings\n    halvings = max(_last_halvings, height // SUBSIDY_HALVING_INTERVAL)\n    _last_halvings = halvings\n")
+M("c16-subsidy-refuses-high-heights", "C16", "R16.4", CONS, "def get_block_subsidy(height: int) -> int:\n    halvings = height // SUBSIDY_HALVING_INTERVAL\n",
+  "def get_block_subsidy(height: int) -> int:\n    if height > 2 ** 31 - 1:\n        raise ValueError(\"height out of range\")\n    halvings = height // SUBSIDY_HALVING_INTERVAL\n")
+M("c20-step-decodes-user-agent", "C20", "R20.10", MGR, "        self._sanity_check()\n\n        for disconnected_peer in list(self.disconnected_peers.values()):\n",
+  "        self._sanity_check()\n        agents = sorted(p.user_agent.decode(\"utf-8\") for p in self.get_active_peers())\n        self.local_peer.logger.debug(\"agents: %s\" % agents)\n\n        for disconnected_peer in list(self.disconnected_peers.values()):\n")
+M("c08-rows-sorted-before-insert", "C08", "R08.8", BS, "        cur = self.connection.cursor()\n        cur.execute('BEGIN TRANSACTION')\n",
+  "        transactions_param.sort(key=lambda row: row[0])\n        cur = self.connection.cursor()\n        cur.execute('BEGIN TRANSACTION')\n")
+M("c07-block-serialize-memo", "C07", "R07.8", "skepticoin/datatypes.py", "    def hash(self) -> bytes:\n        return self.cached_hash or self.header.hash()\n",
+  "    def hash(self) -> bytes:\n        return self.cached_hash or self.header.hash()\n\n    def serialize(self) -> bytes:\n        if getattr(self, \"_bytes\", None) is None:\n            self._bytes = super().serialize()\n        return self._bytes\n")
 M("c15-startup-loads-backup-copy", "C15", "R15.8", "skepticoin/scripts/utils.py", "        wallet = Wallet.load(open(\"wallet.json\", \"r\"))\n",
   "        wallet = Wallet.load(open(\"wallet.json.bak\" if os.path.isfile(\"wallet.json.bak\") else \"wallet.json\", \"r\"))\n")
 M("c15-save-to-given-name-sites-differ", "C15", "R15.4", WAL, "def save_wallet(wallet: Wallet) -> None:", "def save_wallet(wallet: Wallet, filename: str = \"wallet.json\") -> None:",
